@@ -1,5 +1,6 @@
 import Plonk.Props.C05
 import Plonk.Props.C05Perm
+import Plonk.Props.WidgetTie
 #print axioms Plonk.Props.C05.placeholder_consts
 #print axioms Plonk.Props.C05.blind_agrees_on_domain
 #print axioms Plonk.Props.C05.divisible_iff_vanishes
@@ -31,3 +32,7 @@ import Plonk.Props.C05Perm
 #print axioms Plonk.Props.C05Perm.sigma_order_independent
 #print axioms Plonk.Props.C05Perm.relabel_sigma
 #print axioms Plonk.Props.C05Perm.sigmaMaps_congr
+#print axioms Plonk.Props.WidgetTie.verifier_terms_are_the_source
+#print axioms Plonk.Props.WidgetTie.perm_scalars_are_the_models
+#print axioms Plonk.Props.WidgetTie.prover_quotient_terms_are_the_source
+#print axioms Plonk.Props.WidgetTie.prover_linearization_terms_are_the_source
